@@ -328,6 +328,22 @@ def run_harness(binpath, test, tier, seed, extra_env=None, timeout=900, outname=
     return outp, rc, o
 
 
+def crash_summary(out):
+    """(headline, innermost frames of /repo code) when a Go test binary died of a panic / fatal error, else None"""
+    m = re.search(r'^(panic: .*|fatal error: .*)$', out, re.M)
+    if not m:
+        return None
+    tail = out[m.start():]
+    frames = []
+    for fm in re.finditer(r'^(github\.com/edgexfoundry/device-rfid-llrp-go/[^\s(]+(?:\([^)]*\))?[^\s(]*)\(', tail, re.M):
+        f = fm.group(1).split('device-rfid-llrp-go/')[-1]
+        if 'zz_verif' not in f and f not in frames:
+            frames.append(f)
+        if len(frames) >= 4:
+            break
+    return m.group(1)[:200], frames, tail[:2500]
+
+
 def oracle(requests):
     """pipe request lines to the compiled Lean oracle, return the reply lines"""
     p = subprocess.run([ORACLE], input='\n'.join(requests) + '\n', stdout=subprocess.PIPE, stderr=subprocess.PIPE, text=True)
